@@ -285,9 +285,46 @@ def check_foreign():
              ([1, 2], "map_list"), ([], "map_list"), ((1, 2), "map_tuple"), ((), "map_tuple"),
              ("a string", ValueError), (None, ValueError), ({"a": 1}, ValueError), ({1, 2}, ValueError),
              (object(), ValueError), (b"bytes", ValueError)]
+    # number classes registered by the user at run time (long after pymbolic.mapper was imported)
+    import fractions
+
+    class LateNumber:
+        def __init__(self, v): self.v = v
+        def __repr__(self): return f"LateNumber({self.v})"
+
+    class NeverRegistered:
+        pass
+    cases.append((LateNumber(3), ValueError))                    # not registered yet: rejected
     for obj, exp in cases:
         res.path_assertions += 1
         a1 = object()
+        try:
+            got = M()(obj, a1, kw=2)
+        except Exception as e:  # noqa: BLE001
+            got = type(e)
+        ok = got is ValueError if exp is ValueError else got == (exp, (a1,), {"kw": 2})
+        if not ok:
+            _v(res, f"foreign {type(obj).__name__}", "foreign-dispatch", f"{obj!r}: expected {exp}, observed {got}")
+    p.register_constant_class(LateNumber)
+    if fractions.Fraction not in p.VALID_CONSTANT_CLASSES:
+        p.register_constant_class(fractions.Fraction)
+    cases = [(LateNumber(3), "map_constant"), (fractions.Fraction(1, 2), "map_constant"), (NeverRegistered(), ValueError),
+             (p.Sum((p.Variable("x"), LateNumber(4))), "tree")]
+    for obj, exp in cases:
+        res.path_assertions += 1
+        a1 = object()
+        if exp == "tree":
+            from pymbolic.mapper import IdentityMapper
+            from pymbolic.mapper.dependency import DependencyMapper
+            try:
+                r1 = IdentityMapper()(obj)
+                r2 = DependencyMapper()(obj)
+                if r1 is not obj or r2 != {p.Variable("x")}:
+                    _v(res, "foreign late-registered number in a tree", "foreign-dispatch", f"{obj!r}: identity -> {r1!r}, dependencies -> {r2!r}")
+            except Exception as e:  # noqa: BLE001
+                _v(res, "foreign late-registered number in a tree", "foreign-dispatch",
+                   f"{obj!r} holds a number whose class was registered with register_constant_class: stock mappers raise {e!r}")
+            continue
         try:
             got = M()(obj, a1, kw=2)
         except Exception as e:  # noqa: BLE001
